@@ -3,11 +3,14 @@
    ops = class definition, instantiation with configuration, setProperty on one instance, enum growth on one instance.
    Command / mixin component (CmdModel.v): heap of class level Command objects, of the argument / result datatype
    objects of classes AND instances, and of callback dicts; ops = class definition (Command(...)(func), plain method,
-   None), instantiation, setProperty on the argument / result datatype of one instance, register_input. *)
+   None), instantiation, setProperty on the argument / result datatype of one instance, register_input.
+   Module property component (PropModel.v): heap of class level Property objects; ops = class definition (Property(...),
+   bare values), instantiation with configured properties, setProperty on one instance. *)
 From Coq Require Import List Arith ZArith Bool Lia.
 Import ListNotations.
 Require Import FV.Gen.C09 FV.C09.Model FV.C09.Lemmas FV.C09.Refuted.
 Require Import FV.C09.CmdModel FV.C09.CmdLemmas FV.C09.CmdFrame.
+Require Import FV.C09.PropModel FV.C09.PropLemmas FV.C09.PropChain.
 
 (* obligations on the facts regenerated from /repo (Gen/C09.v): the statements the model transliterates are there *)
 Theorem C09_source_facts :
@@ -19,7 +22,9 @@ Theorem C09_source_facts :
   register_input_replaces_datatype = true /\
   command_clone_copies_argument_and_result = true /\ command_merge_in_place = true /\
   command_create_from_value = true /\ command_call_marks_optional = true /\ command_own_properties = true /\
-  mixins_no_mutable_class_attribute = true /\ register_input_creates_instance_dict_first = true.
+  mixins_no_mutable_class_attribute = true /\ register_input_creates_instance_dict_first = true /\
+  properties_collected_along_reversed_mro = true /\ bare_value_override_copies_property_unconditionally = true /\
+  hasproperties_init_presets_values = true /\ module_init_configures_properties_on_instance = true.
 Proof. repeat split; reflexivity. Qed.
 
 (* (1) FULL STRENGTH.  An instance is changed only by the ops addressed to it: whatever else happens -- class
@@ -226,6 +231,110 @@ Example C09_demo_remerge_same_content :
   footprint s d = ([0], []) /\ read (params (define s d)) (dts (define s d)) 0 = read (params s) (dts s) 0.
 Proof. vm_compute. repeat split. Qed.
 
+(* ---------- module level PROPERTIES (PropModel.v): Property objects of classes on a heap, bare value overrides at any
+   number of levels and through plain mixins, instantiation with configuration, setProperty on one instance.
+   FULL STRENGTH, for ALL histories ops1 (from the state in which only frappy's own Module class exists) and ALL
+   continuations ops2 (class definitions of any shape, instantiations, run-time changes), with s1 the state after ops1
+   and s2 the state after ops1 ++ ops2:
+   (a) every Property object referenced by a class (propertyDict or class __dict__) exists - together with (b) this is
+       the heap invariant: a definition only appends objects, so no later class can have written to them;
+   (b) every class that exists in s1 - the base classes, the siblings, anything defined before - has in s2 the same
+       record (MRO, __dict__, propertyDict: the same OBJECTS) and every one of these objects has the same content
+       (range, default, preset value);
+   (c) an instance created in s2 of a class of s1 is the instance that would have been created in s1, and it is
+       pinst_spec = a function of the content of the Property objects of its own class and of its own configuration;
+   (d) an instance that exists in s1 and is not addressed by an op of ops2 is unchanged. *)
+Theorem C09_properties_isolated : forall ops1 ops2,
+  let s1 := prun ops1 in
+  let s2 := prun (ops1 ++ ops2) in
+  (forall c k i, In c (p_classes s2) -> (In (k, i) (pc_pd c) \/ In (k, PEProp i) (pc_dict c)) -> i < length (p_heap s2)) /\
+  (forall ci, ci < length (p_classes s1) ->
+     pclass_at s2 ci = pclass_at s1 ci /\
+     pdescribe (p_heap s2) (pclass_at s2 ci) = pdescribe (p_heap s1) (pclass_at s1 ci)) /\
+  (forall ci ok cfg, ci < length (p_classes s1) ->
+     pnew_inst s2 ci ok cfg = pnew_inst s1 ci ok cfg /\
+     pnew_inst s2 ci ok cfg = pinst_spec ci ok (pdescribe (p_heap s1) (pclass_at s1 ci)) cfg) /\
+  (forall j, j < length (p_insts s1) -> forallb (fun o => negb (paddresses o j)) ops2 = true ->
+     nth j (p_insts s2) pdead = nth j (p_insts s1) pdead).
+Proof.
+  intros ops1 ops2 s1 s2.
+  assert (E : s2 = fold_left pstep ops2 s1) by (unfold s1, s2, prun; apply fold_left_app).
+  assert (I1 : pinv s1) by apply pinv_run.
+  split; [|split; [|split]].
+  - intros c k i Hc [H|H]; destruct (pinv_run (ops1 ++ ops2) c Hc) as [A B]; [eapply A | eapply B]; eauto.
+  - intros ci L. rewrite E. destruct (class_kept_steps ops2 s1 ci I1 L) as [A B]. split. exact A. rewrite A. exact B.
+  - intros ci ok cfg L. rewrite E. rewrite (later_instance_same ops2 s1 ci ok cfg I1 L). split. reflexivity.
+    apply pnew_inst_is_spec.
+  - intros j L H. rewrite E. apply inst_kept_steps; assumption.
+Qed.
+
+(* non-vacuity (the scenario of two levels of bare values and of a plain mixin): Base: gain = Property(1..1000,
+   default 1); Amp(Base): gain = 10; BigAmp(Amp): gain = 100; Hidden: gain = 999 (plain); X(Hidden, Amp).  Amp keeps
+   10 in an object of its own, BigAmp and X have 100 / 999 in further new objects, an instance of Amp created at the
+   end holds 10, setProperty changes the addressed instance only *)
+Example C09_demo_two_level_override :
+  let ops := [PDefine (mkpcdef true [1; 0] [(0, PBNew 1 1000 1 None)]);
+              PDefine (mkpcdef true [2; 1; 0] [(0, PBBare 10)]);
+              PInst 2 true [];
+              PDefine (mkpcdef true [3; 2; 1; 0] [(0, PBBare 100)]);
+              PDefine (mkpcdef false [4] [(0, PBBare 999)]);
+              PDefine (mkpcdef true [5; 4; 2; 1; 0] []);
+              PInst 2 true []; PInst 3 true []; PInst 5 true [(0, 7%Z)]; PSetProp 1 0 8%Z] in
+  let s := prun ops in
+  map (fun c => pclass_obs (p_heap s) c) (tl (p_classes s)) =
+    [[(2, (None, 1%Z)); (3, (None, 15%Z)); (0, (None, 1%Z))];
+     [(2, (None, 1%Z)); (3, (None, 15%Z)); (0, (Some 10%Z, 1%Z))];
+     [(2, (None, 1%Z)); (3, (None, 15%Z)); (0, (Some 100%Z, 1%Z))];
+     [];
+     [(2, (None, 1%Z)); (3, (None, 15%Z)); (0, (Some 999%Z, 1%Z))]] /\
+  map (fun c => map snd (pc_pd c)) (tl (p_classes s)) = [[0; 1; 2]; [0; 1; 3]; [0; 1; 4]; []; [0; 1; 5]] /\
+  map (pinst_obs s) (p_insts s) =
+    [[(2, 1%Z); (3, 15%Z); (0, 10%Z)]; [(2, 1%Z); (3, 15%Z); (0, 8%Z)]; [(2, 1%Z); (3, 15%Z); (0, 100%Z)];
+     [(2, 1%Z); (3, 15%Z); (0, 7%Z)]].
+Proof. vm_compute. repeat split. Qed.
+
+(* FULL STRENGTH.  The property part of a class is a function of its own chain only: in ANY two reachable worlds, two
+   definitions with the same body whose MROs show the same content (view = the class __dict__ with every Property object
+   replaced by its content: identities, heap positions, other classes and all instances are invisible) produce classes with
+   the same content - class __dict__ and propertyDict -, namely vdefine (a function without heap) of body and views.
+   With (b) of C09_properties_isolated (the view of a class never changes after its definition) this is: the properties
+   of a class are determined by the bodies along its own MRO, whatever else was defined or created before or after *)
+Theorem C09_property_description_function_of_chain : forall ops ops' d d',
+  let s := prun ops in
+  let s' := prun ops' in
+  pd_module d = pd_module d' -> pd_body d = pd_body d' ->
+  map (view (p_heap s)) (base_dicts (p_classes s) (pd_mro d)) =
+  map (view (p_heap s')) (base_dicts (p_classes s') (pd_mro d')) ->
+  let c := last (p_classes (pdefine s d)) pcls0 in
+  let c' := last (p_classes (pdefine s' d')) pcls0 in
+  view (p_heap (pdefine s d)) (pc_dict c) = view (p_heap (pdefine s' d')) (pc_dict c') /\
+  pdescribe (p_heap (pdefine s d)) c = pdescribe (p_heap (pdefine s' d')) c' /\
+  (view (p_heap (pdefine s d)) (pc_dict c), pdescribe (p_heap (pdefine s d)) c)
+  = vdefine (pd_module d) (pd_body d) (map (view (p_heap s)) (base_dicts (p_classes s) (pd_mro d))).
+Proof.
+  intros ops ops' d d' s s' Hm Hb Hv c c'.
+  pose proof (define_is_function_of_chain s d (pinv_run ops)) as A.
+  pose proof (define_is_function_of_chain s' d' (pinv_run ops')) as B.
+  cbv zeta in A, B. fold c in A. fold c' in B. rewrite <- Hm, <- Hb, <- Hv in B.
+  split; [|split; [|exact A]].
+  - apply (f_equal fst) in A. apply (f_equal fst) in B. simpl in A, B. congruence.
+  - apply (f_equal snd) in A. apply (f_equal snd) in B. simpl in A, B. congruence.
+Qed.
+
+(* non-vacuity: Amp(Base): gain = 10 defined in a world with Base only and in a world where a sibling with its own bare
+   values and an instance exist: the hypothesis holds, and the description is the expected one *)
+Example C09_demo_chain_two_worlds :
+  let base := PDefine (mkpcdef true [1; 0] [(0, PBNew 1 1000 1 None)]) in
+  let s := prun [base] in
+  let s' := prun [base; PDefine (mkpcdef true [2; 1; 0] [(0, PBBare 100); (3, PBBare 60)]); PInst 2 true [(0, 7%Z)]] in
+  let d := mkpcdef true [2; 1; 0] [(0, PBBare 10)] in
+  let d' := mkpcdef true [3; 1; 0] [(0, PBBare 10)] in
+  map (view (p_heap s)) (base_dicts (p_classes s) (pd_mro d)) =
+  map (view (p_heap s')) (base_dicts (p_classes s') (pd_mro d')) /\
+  pdescribe (p_heap (pdefine s' d')) (last (p_classes (pdefine s' d')) pcls0) =
+    [(2, mkpo 1 3 1 None); (3, mkpo 1 120 15 None); (0, mkpo 1 1000 1 (Some 10%Z))].
+Proof. vm_compute. split; reflexivity. Qed.
+
 Print Assumptions C09_source_facts.
 Print Assumptions C09_instances_isolated.
 Print Assumptions C09_classes_unaffected_by_instances.
@@ -243,3 +352,5 @@ Print Assumptions C09_command_later_instances_unaffected.
 Print Assumptions C09_command_define_frame_except_inplace_merge.
 Print Assumptions C09_mixin_state_isolated.
 Print Assumptions C09_refuted_method_override_reset.
+Print Assumptions C09_properties_isolated.
+Print Assumptions C09_property_description_function_of_chain.
